@@ -549,6 +549,19 @@ def gen_gms(r, tier):
             want = (want - 1 if want >= 2 else 0) + 2 * e
             size = r.choice([0, 1, 2, max(want - 1, 0), want, want + 1, r.range(0, 320)])
             lines.append("gms %d %d %d %d %s %s" % (count, e, al, size, st(a), st(b)))
+        if not hinted:
+            # the callers' recipes on real pairs: PathGeometric::interpolate() passes n - 1 (32-bit unsigned: UINT_MAX for
+            # identical states), RRT/RRTConnect pass n; n = validSegmentCount of the pair
+            for _ in range(30 if tier == "thorough" else 10):
+                a2 = rnd_state(r, cfg, tree)
+                k = r.below(5)
+                b2 = list(a2) if k == 0 else near_state(r, cfg, tree, a2, 0.02) if k == 1 else rnd_state(r, cfg, tree)
+                n = spec_seg(tree, cfg, a2, b2)
+                if n > 400:
+                    continue
+                lines.append("gms %d 0 1 0 %s %s" % ((n - 1) % 4294967296, st(a2), st(b2)))
+                lines.append("gms %d 1 1 0 %s %s" % (n, st(a2), st(b2)))
+                lines.append("gms %d 1 0 %d %s %s" % (n, r.range(0, n + 3), st(a2), st(b2)))
         out.append(("gms-" + space, lines))
     return out
 
@@ -774,7 +787,15 @@ def canon(lines, skip=()):
 
 
 def diff(ck, impl, model, skip=()):
-    return ck.first_diff(canon(impl, skip), canon(model, skip))
+    a, b = canon(impl, skip), canon(model, skip)
+    # getMotionStates on a pair whose end points / interpolants coincide bit-wise (identical states): the slot labels are
+    # ambiguous (harness amb > 0); only the returned count and the vector size are compared there
+    for i, l in enumerate(a):
+        if l.startswith("ret=") and not l.endswith("amb=0"):
+            a[i] = " ".join(l.split()[:2])
+            if i < len(b):
+                b[i] = " ".join(b[i].split()[:2])
+    return ck.first_diff(a, b)
 
 
 def report_f75(ck, hbin, script, impl, hits, cfg):
@@ -800,6 +821,9 @@ def judge(ck, hbin, tag, script, segs_by_text=None, pre=None):
     cfg = parse_header(script[0])
     if rc not in (0,) and fail is None:
         fail = (len(impl), "harness exited with code %s: %s" % (rc, (err or "")[-400:]))
+    elif rc not in (0,) and "stopped early" in fail[1]:
+        summ = [l for l in (err or "").splitlines() if "SUMMARY" in l or "runtime error" in l]
+        fail = (fail[0], fail[1] + (": " + summ[0].strip()[:200] if summ else ""))
     skip = set(stats["f75"])
     if skip:
         key = ("f75", cfg["validator"], script[1 + stats["f75"][0]].split()[0])
